@@ -143,7 +143,7 @@ func newRunnerRec() *runnerRec {
 }
 
 func newGenMachine(p GenParams) vf.Machine[GenOp] {
-	m := &genMachine{p: p, retired: map[uint64]bool{}, limit: protocol.DefaultActiveConnectionIDLimit, now: 1_000_000_000,
+	m := &genMachine{p: p, retired: map[uint64]bool{}, limit: protocol.DefaultActiveConnectionIDLimit, now: int64(monotime.Now()), // the model clock starts at the library clock: anything the library compares with its own Now() agrees with the model
 		tokens: map[protocol.StatelessResetToken]bool{}, cl: map[string]bool{}}
 	m.cg = &counterGen{l: p.ConnLen}
 	for i := range m.run {
